@@ -114,6 +114,19 @@ def _classifier_rule(ctx, prop="C10", rid="C10.R6"):
     return r6
 
 
+def lexer_hook(ctx, rid):
+    """A model of pyxform.parsing.expression.parse_expression for other checks: the package's own lexer table
+    (LEXER_RULES, folded from source) applied by the analyser's scanner; tokens carry name / value / start / end."""
+    from ..interp import Obj as _Obj
+    rules_map = ctx.consts.get("pyxform.parsing.expression", "LEXER_RULES", rid)
+
+    def h_parse(i, a, k, n):
+        text = a[0] if a else k.get("text")
+        toks, rest = scan_tokens(rules_map, text)
+        return ([_Obj(None, {"name": nm, "value": v}, name=f"tok:{nm}") for nm, v in toks], rest)
+    return h_parse
+
+
 STATIC_DEFAULTS = ["42", "'f-g'", '"N/A"', "''", '""', "'yes' or 'no'", "'", '"<b>" & "]]>"', "a < b & c > d", "&amp;", "<!-- x -->", " padded ", "0", "1.50", "-", "yes",
                    "ümlaut 😀", "${not_a_ref", "a'b", 'say "hi"', "( x )", "[1]", "line1\nline2"]
 
